@@ -134,6 +134,27 @@ def predicate(case, out):
     return None
 
 
+def search(ctx, broken):
+    """directed search when a proof obligation / the correspondence broke: strongly and weakly conducting single cells in small lossless boxes,
+    more steps; wall / periodic / Bloch mixes without loss"""
+    cases = []
+    for i in range(24):
+        c = rand_case(ctx.rng, True, 0)
+        c.pop("edges", None)
+        if i % 4 != 3:
+            c.update(sigma="E", sigma_single=True, sigma_scale=[64.0, 2048.0, 16384.0][i % 3], steps=40)
+        else:
+            c.update(steps=6)
+        cases.append(c)
+    outs = run_cases(ctx, cases)
+    found = []
+    for c, o in zip(cases, outs):
+        r = predicate(c, o)
+        if r and r[0] != "one-sided-bloch-face":
+            found.append((c, o, r[0], r[1]))
+    return found[:3], len(cases)
+
+
 def nontrivial(case, out):
     return "error" not in out and Y.maxabs(out) > 0 and np.prod(case["shape"]) >= 8
 
